@@ -678,7 +678,7 @@ func (gen *Generator) GenerateInclude(args []Sexp) error {
 			}
 
 		default:
-			return fmt.Errorf("include: Expected `string`, `list`, `array` given type %T val %v", item, item)
+			return fmt.Errorf("include: Expected `string`, `list`, `array` given type %T val %s", item, item.SexpString(nil))
 		}
 
 		return nil
